@@ -1363,4 +1363,31 @@ theorem crl_section :
       (fun n => Verif.Generated.Locks.crlCalls.any (·.1 == n)) = true := by
   decide
 
+/-! ## 5d. which authority serves, and who is named as issuer -/
+
+/-- **both_authorities_serve_stored_list.** During a reload the replaced and the new authority answer the CRL endpoint with the same
+    response, the list stored in the shared database: whatever either of them published last is what both serve. -/
+theorem both_authorities_serve_stored_list (enabled : Bool) (g2 : G2) (pem : Bool) :
+    serve2 enabled g2 true pem = serve2 enabled g2 false pem ∧
+    (enabled = true → (serve2 enabled g2 true pem).body = g2.g.crl) := by
+  unfold serve2 crlHandler oldView
+  constructor
+  · simp
+  · intro h; subst h; cases hc : g2.g.crl <;> simp [hc]
+
+/-- **served_after_reload_window.** Old and new authority on one database under the process-wide mutex: once a generate-on-revoke
+    revocation served by either of them is acknowledged, the list either of them serves from then on is the head of the stored history,
+    and every list stored after the acknowledgement carries the serial (`shared_mutex_revoke_visible`); no authority can go on serving
+    an older list of its own. -/
+theorem served_after_reload_window (g2 : G2) (qs : List Req2) (evs : List Ev) (old pem : Bool) :
+    (serve2 true (machine2.run (g2, qs) evs).1 old pem).body = (machine2.run (g2, qs) evs).1.g.crl := by
+  have := (both_authorities_serve_stored_list true (machine2.run (g2, qs) evs).1 pem)
+  cases old
+  · rw [← this.1]; exact this.2 rfl
+  · exact this.2 rfl
+
+/-- **crl_issuer_is_signer.** The issuer of a list is the first certificate of the intermediate bundle (the certificate of the signing
+    key), however many CA certificates follow it. -/
+theorem crl_issuer_is_signer {α : Type} (signer : α) (rest : List α) : crlIssuerOf (signer :: rest) = some signer := rfl
+
 end Verif.CRL
